@@ -66,9 +66,25 @@ func NewBackend(kind string, cfg cache.Config) Backend {
 	panic("unknown backend kind " + kind)
 }
 
+// Pt is a gob-registered struct value ("pt" populated, "zero" its zero value).
+type Pt struct {
+	X int
+	S string
+	L []string
+}
+
+func init() { //nolint:gochecknoinits
+	cache.GobRegister(Pt{})
+}
+
 func encAny(v string) interface{} {
-	if v == "nil" {
+	switch v {
+	case "nil":
 		return nil
+	case "pt":
+		return Pt{X: 7, S: "seven", L: []string{"a", "b"}}
+	case "zero":
+		return Pt{}
 	}
 
 	return v
@@ -81,6 +97,16 @@ func decAny(v interface{}) string {
 
 	if s, ok := v.(string); ok {
 		return s
+	}
+
+	if p, ok := v.(Pt); ok {
+		if p.X == 7 && p.S == "seven" && len(p.L) == 2 && p.L[0] == "a" && p.L[1] == "b" {
+			return "pt"
+		}
+
+		if p.X == 0 && p.S == "" && len(p.L) == 0 {
+			return "zero"
+		}
 	}
 
 	return fmt.Sprintf("?%#v", v)
